@@ -232,12 +232,13 @@ _also("C01", "the rule / redirect-state lookups hand the actor's answer through 
 _also("C02", "whichever way the iteration over privileges / assignments is spelled (loops or iterator chains), no call in is_allowed or its "
              "closures selects by position (find/next/take .. on a hash map's order); a selecting call is accepted only when nothing but "
              "the presence of its result is used. The computed privileges / assignments maps only grow while the rule set is computed "
-             "(no retain / remove / clear / drain on them): is_allowed tells 'a declared privilege matches, nobody assigned' from 'nothing "
+             "(no retain / remove / clear / drain on them, no selecting adaptor in the chain collected into the privileges map): is_allowed tells 'a declared privilege matches, nobody assigned' from 'nothing "
              "declared matches' only if every declared privilege is present.")
 _also("C03", "the claims every authorizer sees are built from this connection's kernel record (no cache, field-to-field mapping table).")
 _also("C04", "each signed agent call reads key id and value from the key keeper in that very call; query_pairs keeps every item with a "
              "non-empty name; the canonical form is looked for in the function and its closures (loop or iterator-chain spelling).")
-_also("C05", "every upstream send carries the three inserts on its own path (not only the first send).")
+_also("C05", "every upstream send carries the three inserts on its own path (not only the first send); nothing on the send chain below "
+             "the handler (HttpConnectionContext / TcpConnectionContext / Client::send_request) touches the request again.")
 _also("C06", "the hand-over and audit maps are LRU hash maps on both sides; policy lookups done through a C helper are resolved with "
              "parameter substitution (key fields and byte-order tags).")
 _also("C07", "lookup and remove open the same map type; remove_audit takes the eBPF object's mutex with a blocking lock() and its failure "
@@ -253,7 +254,9 @@ _also("C11", "the host's mode string maps to Disabled/Audit/Enforce by a case-fo
              "Add* arms and the periodic clear (reading or publishing never consumes the records); the entry-API spelling of "
              "'vacant -> 1, occupied -> += 1' is accepted.")
 _also("C12", "the key text can reach an error value only on the Err outcome of hex::decode of that very text (pins the input class of the "
-             "recorded findings).")
+             "recorded findings). A whole Key handed to a serialiser (json_write_to_file::<Key>, serde_json::to_*::<Key>) is a source "
+             "too, and the flow is followed through the shared file writer and through serialisation: what they hand back (rendered "
+             "text, an error text quoting the content) must not reach a log / status / event output.")
 _also("C13", "the boundary helpers return a borrowed prefix of their argument; an offset chosen by "
              "find(|i| s.is_char_boundary(i)).unwrap_or(0) is an accepted idiom.")
 _also("C16", "the five provision wrappers are reliable awaited round trips; the deadline and the start of the status tasks do not wait for "
